@@ -43,6 +43,9 @@ type Disk struct {
 	base    map[string]map[string][]byte // checkpoint content (journal is relative to it)
 	// BulkChunk is the number of ops a bulk makes durable at once (0 = whole flush).
 	BulkChunk int
+	// ChunkStore, when set, restricts chunking to bulks of that store; bulks of other stores are
+	// one atomic unit (the real backend commits a small write batch as one transaction).
+	ChunkStore string
 	// crash control
 	armed   bool
 	crashAt int // crash when len(Journal) == crashAt, i.e. unit crashAt is NOT applied
@@ -51,7 +54,9 @@ type Disk struct {
 	// PermBulk, when set, reorders the ops of one bulk flush before chunking (the
 	// real order partly comes from Go map iteration; every order is legal).
 	PermBulk func(ops []Op) []Op
-	Writes   int64
+	// PermBulkStore is the same hook with the store name (takes precedence).
+	PermBulkStore func(store string, ops []Op) []Op
+	Writes        int64
 }
 
 var (
@@ -119,6 +124,110 @@ func (d *Disk) Checkpoint() {
 	d.Journal = nil
 }
 
+// Snap is a full copy of a disk (content, base and journal).
+type Snap struct {
+	stores, base map[string]map[string][]byte
+	journal      []Unit
+}
+
+func copyStores(m map[string]map[string][]byte) map[string]map[string][]byte {
+	out := make(map[string]map[string][]byte, len(m))
+	for n, s := range m {
+		c := make(map[string][]byte, len(s))
+		for k, v := range s {
+			c[k] = v
+		}
+		out[n] = c
+	}
+	return out
+}
+
+func (s *Snap) JournalLen() int { return len(s.journal) }
+
+// UnitAt describes journal unit k of the snapshot (store, kind, number of ops).
+func (s *Snap) UnitAt(k int) (string, string, int) {
+	if k < 0 || k >= len(s.journal) {
+		return "", "", 0
+	}
+	u := s.journal[k]
+	return u.Store, u.Kind, len(u.Ops)
+}
+
+// Snapshot copies the disk; values are never mutated in place, so sharing them is safe.
+func (d *Disk) Snapshot() *Snap {
+	d.mu.Lock()
+	defer d.mu.Unlock()
+	cur := map[string]map[string][]byte{}
+	for n, s := range d.stores {
+		cur[n] = s.data
+	}
+	return &Snap{stores: copyStores(cur), base: copyStores(d.base), journal: append([]Unit{}, d.Journal...)}
+}
+
+// Restore puts the disk back to a snapshot (crash control is reset).
+func (d *Disk) Restore(sn *Snap) {
+	d.mu.Lock()
+	defer d.mu.Unlock()
+	cp := copyStores(sn.stores)
+	for n, s := range d.stores {
+		if m, ok := cp[n]; ok {
+			s.data = m
+		} else {
+			s.data = map[string][]byte{}
+		}
+	}
+	d.base = copyStores(sn.base)
+	d.Journal = append([]Unit{}, sn.journal...)
+	d.armed, d.dead = false, false
+}
+
+// UnitAt describes journal unit k (store, kind, number of ops).
+func (d *Disk) UnitAt(k int) (string, string, int) {
+	d.mu.Lock()
+	defer d.mu.Unlock()
+	if k < 0 || k >= len(d.Journal) {
+		return "", "", 0
+	}
+	u := d.Journal[k]
+	return u.Store, u.Kind, len(u.Ops)
+}
+
+// CanonStateBulk is a PermBulkStore hook: the ops of a state-store bulk come in Go map order
+// (stateBuffer.stage, CacheDB.commit); every order is legal, so they are sorted by key (stable,
+// the final marker op stays last) and then, if perm is non-nil, the distinct-key groups are
+// permuted by it. Bulks of other stores keep their program order.
+func CanonStateBulk(perm func(n int) []int) func(store string, ops []Op) []Op {
+	return func(store string, ops []Op) []Op {
+		n := len(ops)
+		if store != "state" || n < 3 {
+			return ops
+		}
+		last := ops[n-1]
+		body := append([]Op{}, ops[:n-1]...)
+		sort.SliceStable(body, func(i, j int) bool { return bytes.Compare(body[i].K, body[j].K) < 0 })
+		var groups [][]Op
+		for i := 0; i < len(body); {
+			j := i + 1
+			for j < len(body) && bytes.Equal(body[j].K, body[i].K) {
+				j++
+			}
+			groups = append(groups, body[i:j])
+			i = j
+		}
+		out := make([]Op, 0, n)
+		if perm != nil {
+			for _, gi := range perm(len(groups)) {
+				out = append(out, groups[gi]...)
+			}
+		} else {
+			for _, g := range groups {
+				out = append(out, g...)
+			}
+		}
+		return append(out, last)
+	}
+}
+
 // Arm makes the disk "die" when unit number k (0-based, counted from the last
 // checkpoint) is about to be written; torn>0 lets that many leading ops of a
 // bulk unit reach the disk first.
@@ -128,7 +237,7 @@ func (d *Disk) Arm(k, torn int) {
 	d.mu.Unlock()
 }
 
-func (d *Disk) Disarm() { d.mu.Lock(); d.armed, d.dead = false, false; d.mu.Unlock() }
+func (d *Disk) Disarm()    { d.mu.Lock(); d.armed, d.dead = false, false; d.mu.Unlock() }
 func (d *Disk) Dead() bool { d.mu.Lock(); defer d.mu.Unlock(); return d.dead }
 
 // RebuildAt resets every store to base + Journal[0:k] (+ torn prefix of unit k)
@@ -283,10 +392,15 @@ func (b *bulk) Flush() {
 	}
 	b.done = true
 	ops := b.ops
-	if b.s.d.PermBulk != nil {
+	if b.s.d.PermBulkStore != nil {
+		ops = b.s.d.PermBulkStore(b.s.name, ops)
+	} else if b.s.d.PermBulk != nil {
 		ops = b.s.d.PermBulk(ops)
 	}
 	ch := b.s.d.BulkChunk
+	if b.s.d.ChunkStore != "" && b.s.d.ChunkStore != b.s.name {
+		ch = 0
+	}
 	if ch <= 0 || ch >= len(ops) {
 		b.s.d.write(Unit{Store: b.s.name, Kind: "bulk", Ops: ops})
 		return
